@@ -46,6 +46,7 @@ func main() {
 	cfg := vlib.ParseFlags("C03", "model_checking")
 	r := vlib.NewReport(cfg)
 	logx.Disable()
+	getEnv() // start miniredis + client (and load the scripts) outside any controlled execution
 	scs := scenarios(cfg.Thorough())
 	quick, thorough := vx.Bounds{P: 2, T: 0}, vx.Bounds{P: 3, T: 1}
 
@@ -197,6 +198,40 @@ func main() {
 	r.Assume("TokenLimiter histories run the recovery monitor to quiescence under the default schedule after each step (sequential-driver mode); its interleavings with requests are explored by the schedule scenarios")
 	r.Assume("Align(): the window ends at the next multiple of period on the wall clock at EXPIRE's whole-second resolution (first take + (period − unix mod period) s)")
 	vx.Main(cfg, r, scs, quick, thorough, rule)
+}
+
+// stable runs one history; a run in which the redis client re-sent a script command is repeated,
+// and a failing verdict must reproduce twice more before it is believed (else: ERROR, exit 2).
+func stable(what string, verbose bool, run func(verbose bool) runResult) runResult {
+	e := getEnv()
+	var res runResult
+	for attempt := 0; ; attempt++ {
+		e.resent.Store(false)
+		res = run(verbose)
+		if !e.resent.Load() {
+			break
+		}
+		fmt.Fprintf(os.Stderr, "note: redis client re-sent a command during %s (verdict %q discarded, history re-executed)\n", what, res.class)
+		if attempt >= 5 {
+			fmt.Printf("ERROR the redis client keeps re-sending commands (overloaded machine?); history %s\n", what)
+			os.Exit(2)
+		}
+	}
+	if res.err != "" {
+		for i := 0; i < 2; i++ {
+			e.resent.Store(false)
+			again := run(false)
+			if e.resent.Load() {
+				i--
+				continue
+			}
+			if again.class != res.class {
+				fmt.Printf("ERROR nondeterminism: history %s gave class %q, then %q\n", what, res.class, again.class)
+				os.Exit(2)
+			}
+		}
+	}
+	return res
 }
 
 func record(r *vlib.Report, name string, out vlib.BFSResult, depth int, per map[string]*[2]int, wall time.Duration) {
